@@ -66,7 +66,11 @@ def payload_for(rng, cls, k):
             doc = genpel.gen_json_value(rng, 1) if k % 3 == 0 else \
                 {genpel.rtext(rng, rng.randrange(1, 9), genpel.ALNUM + ' :"{\\'): genpel.gen_json_value(rng, 1)
                  for _ in range(rng.randrange(1, 5))}
-            if not (isinstance(doc, dict) and (set(doc) & set(udrun.BASE + ('Error',)))):
+            if isinstance(doc, dict) and k % 5 == 2:
+                # members named like the entry's own header fields: the JSON value still has to appear as it is
+                for name in rng.sample(udrun.BASE, rng.randrange(1, 3)):
+                    doc[name] = rng.choice(['sensor-monitor', '2.1', 7, None, [1, 2], {'a': 1}])
+            if not (isinstance(doc, dict) and 'Error' in doc):
                 break
         raw = json.dumps(doc).encode('utf-8')
         raw += b'\x00' * ((-len(raw)) % 4 if k % 2 else 0)
@@ -151,7 +155,13 @@ def run_case(case):
         pel, focus, canon = build(rng, it)
         r = it['route']
         beh = r['beh'] if r['comp'] == 'served' else 'absent'
-        recs.append(udrun.observe(pel, focus, r['plugins'], beh, 'C04', expect_canon=canon))
+        collide = ()
+        if canon and pel['secs'][focus].get('sub') == 1 and pel['secs'][focus].get('comp') == [0x20, 0x00]:
+            try:
+                collide = tuple(sorted(set(json.loads(canon)) & set(udrun.BASE)))
+            except ValueError:
+                collide = ()
+        recs.append(udrun.observe(pel, focus, r['plugins'], beh, 'C04', expect_canon=canon, collide=collide))
         recs[-1]['route'] = r
     return recs
 
